@@ -1228,8 +1228,8 @@ class Interp:
         sym = self.models.symbolic_comprehension(self, e, env, module)
         if sym is not None:
             return sym
-        out = []
-        self._comp(e, env, module, lambda cenv: out.append(self.eval(e.elt, cenv, module)))
+        out = PList()           # like a list display: may later be extended with a symbolic sequence
+        self._comp(e, env, module, lambda cenv: list.append(out, self.eval(e.elt, cenv, module)))
         return out
 
     def ex_GeneratorExp(self, e, env, module):
